@@ -653,6 +653,11 @@ class CallsMixin:
             self.unsupported(f"inlining depth at {f.qual}", node)
         if f.qual in self.fn_stack and self.fn_stack.count(f.qual) >= 2:
             self.unsupported(f"recursion at {f.qual}", node)
+        if f.kind == "classmethod" and f.cls:
+            names_ = [x.arg for x in f.node.args.posonlyargs + f.node.args.args]
+            if names_ and names_[0] not in kw and len(args) + len([k_ for k_ in kw if k_ in names_]) == len(names_) - 1 \
+                    and not (args and args[0].k == "class"):
+                args = [T("class", f.cls)] + list(args)
         bound, anns = self.bind_args(f, args, kw, env, node)
         if not self.quiet:
             self.calls.append((self.cur_func(), f.short))
@@ -1048,6 +1053,13 @@ class CallsMixin:
             if name == "open":
                 self.log_fileop("open", None, args, kw, env, node)
             return T("call", name, tuple(args), ty=ty)
+        if name == "slice" and 1 <= len(args) <= 2:
+            lo_, hi_ = (C(0), args[0]) if len(args) == 1 else (args[0] if not is_const(args[0], None) else C(0), args[1])
+            return T("sliceobj", lo_, hi_)
+        if name == "frozenset" and len(args) == 1:
+            return args[0]          # only membership and iteration are observed; both are those of the argument
+        if name == "map" and len(args) == 2 and args[1].k in ("tuple", "list"):
+            return T("list", tuple(self.call(args[0], [x_], {}, env, node, None) for x_ in args[1].a[0]), ty=("list", None))
         if name == "dict":
             return T("dictlit", (), ty="dict")
         if name == "list":
